@@ -13,12 +13,15 @@
 (*             ctattr  : contentType attribute ("data" | "spc" | "other" | "absent"),                *)
 (*             md      : messageDigest attribute = H(identity) | "junk" | "absent",                   *)
 (*             order   : "canonical" (DER SET OF order) | "swapped"]]                                *)
-(* A verifying certificate is [sid, key].  "A" and "At" share issuer+serial and differ in the key.   *)
+(* A verifying certificate is [sid, key].  "A", "At", "Ae", "Ac" share issuer+serial and differ in the key *)
+(* (another RSA key, a key of another kind: nothing was ever signed with those).                    *)
 EXTENDS Integers, Sequences, FiniteSets, TLC
 
 Cert(n) == CASE n = "A" -> [sid |-> "A", key |-> "k1"] [] n = "B" -> [sid |-> "B", key |-> "k2"]
              [] n = "At" -> [sid |-> "A", key |-> "k2"]
-CertNames == {"A", "B", "At"}
+             [] n = "Ae" -> [sid |-> "A", key |-> "ked"]     \* A's issuer+serial on a certificate with an Ed25519 key
+             [] n = "Ac" -> [sid |-> "A", key |-> "kec"]     \* ... with an ECDSA P-256 key
+CertNames == {"A", "B", "At", "Ae", "Ac"}
 
 (* the signature covers the attribute bytes exactly as they appear *)
 NAttrs(s) == IF s.attrs # "present" THEN 0 ELSE 1 + (IF s.ctattr = "absent" THEN 0 ELSE 1) + (IF s.md = "absent" THEN 0 ELSE 1)   \* signingTime is always there
@@ -52,5 +55,5 @@ Expect(b, c) == IF ~RFCVerify(b, c) THEN "must_not"
 NoOtherKey(b, c) == RFCVerify(b, c) => \E i \in 1..Len(b.signers) : b.signers[i].sigKey = c.key /\ b.signers[i].sid = c.sid
 ContentBound(b, c) == (RFCVerify(b, c) /\ b.content # "none") =>
                          \E i \in 1..Len(b.signers) : b.signers[i].sigKey = c.key /\ b.signers[i].md = b.content
-TwinRejected(b) == (\A i \in 1..Len(b.signers) : b.signers[i].sigKey = "k1") => ~RFCVerify(b, Cert("At"))
+TwinRejected(b) == (\A i \in 1..Len(b.signers) : b.signers[i].sigKey = "k1") => \A n \in {"At", "Ae", "Ac"} : ~RFCVerify(b, Cert(n))
 =============================================================================
